@@ -60,7 +60,9 @@ def freeform_spec():
             "at": {"type": "string", "format": "time", "example": "09:30:00"}}},
         "Order": {"type": "object", "properties": {
             "paging": pg({"offset": 0, "limit": 20}),
-            "attrs": {"type": "object", "additionalProperties": {"type": "integer"}, "examples": [{"q": 1, "p": 2}]}}},
+            "attrs": {"type": "object", "additionalProperties": {"type": "integer"}, "examples": [{"q": 1, "p": 2}]},
+            "lines": {"type": "array", "items": {"type": "object", "additionalProperties": True}, "example": [{"sku": "s", "qty": 1, "price": {"minor": 5, "currency": "EUR"}}, [{"b": 1, "a": [{"d": 1, "c": 2}]}]],
+                      "default": [{"z": 1, "y": [{"n": 1, "m": 2}]}]}}},
     }
     paths = {
         "/multi": {"get": {"operationId": "multi_media", "responses": {
@@ -106,6 +108,7 @@ def main(tier, seed, replay=None):
         variants = [("base", json.dumps(spec), "json"), ("rerun", json.dumps(spec), "json"),
                     ("perm1", json.dumps(shuffle_keys(spec, rnd)), "json"), ("perm2", json.dumps(shuffle_keys(spec, rnd), indent=3), "json"),
                     ("yaml", yaml.safe_dump(shuffle_keys(spec, rnd), sort_keys=False, allow_unicode=True), "yaml"),
+                    ("yml", yaml.safe_dump(spec, sort_keys=True, allow_unicode=True), "yml"),
                     ("sorted", json.dumps(spec, sort_keys=True), "json"), ("reversed", json.dumps(reverse_keys(spec), indent=1), "json")]
         if name in ("freeform", "replay"):
             variants += [(f"rerun{k}", json.dumps(spec), "json") for k in range(2, 7)]
@@ -135,7 +138,7 @@ def main(tier, seed, replay=None):
     for name, spec in corpus:
         for mode in MODES:
             rc0, base, t0 = by[(name, mode, "base")]
-            for v in ["rerun", "perm1", "perm2", "yaml", "sorted", "reversed"] + ([f"rerun{k}" for k in range(2, 7)] + [f"env{k}" for k in range(len(ENVS))] if name in ("freeform", "replay") else []):
+            for v in ["rerun", "perm1", "perm2", "yaml", "yml", "sorted", "reversed"] + ([f"rerun{k}" for k in range(2, 7)] + [f"env{k}" for k in range(len(ENVS))] if name in ("freeform", "replay") else []):
                 rc, outs, t = by[(name, mode, v)]
                 n_cmp += 1
                 if rc != rc0:
@@ -152,9 +155,9 @@ def main(tier, seed, replay=None):
                     viol.append((name, spec, f"{name} {mode}: output differs for variant {v} in {diff}: {first}"))
     res.counts.update({"evaluations": len(jobs), "distinct_nontrivial": len(corpus) * len(MODES), "comparisons": n_cmp,
                        "traces_validated_against_impl": len(jobs),
-                       "rule": "corpus = shipped fixtures + feature-grammar specs; for each spec x 4 modes: two separate processes on the same file (fresh hash seeds), two random key-order permutations at every object level (different whitespace), keys sorted, keys reverse-sorted, and a YAML re-encoding with permuted keys; a hand-made spec with free-form JSON values (example/default/const/enum/x-*) in differing key orders and paths with several undeclared template variables gets six extra reruns and five runs under different TZ / locale / terminal environments; outputs compared byte-for-byte with only the `//! Source:` line masked"})
+                       "rule": "corpus = shipped fixtures + feature-grammar specs; for each spec x 4 modes: two separate processes on the same file (fresh hash seeds), two random key-order permutations at every object level (different whitespace), keys sorted, keys reverse-sorted, and YAML re-encodings (.yaml with permuted keys, .yml with sorted keys); a hand-made spec with free-form JSON values (example/default/const/enum/x-*) in differing key orders and paths with several undeclared template variables gets six extra reruns and five runs under different TZ / locale / terminal environments; outputs compared byte-for-byte with only the `//! Source:` line masked"})
     for name, _ in corpus[:4]:
-        res.sample({"spec": name, "modes": MODES, "variants": ["rerun", "perm1", "perm2", "yaml", "sorted", "reversed"]})
+        res.sample({"spec": name, "modes": MODES, "variants": ["rerun", "perm1", "perm2", "yaml", "yml", "sorted", "reversed"]})
     res.cov["trusted_base"] = vlib.COMMON_TRUSTED + ["tools/vtool inventory (syntactic: bindings/fields/adaptors of HashMap/HashSet type that are iterated)", "python json/yaml re-serialisation of the same document"]
     res.assumptions = ["PARTIAL: clock, environment, terminal width and real hash seeds are not modelled; covered only by the repeated-process runs",
                        "the theorem is about the parse step (BTreeMap) and the inventoried hash consumers; that every other generator step is a function of the parsed document is Rust's semantics"]
